@@ -29,6 +29,8 @@ def run_e1(task, prop):
     tier = task.get('tier', 'quick')
     cfg = task['config'] if replay else prop.gen_config(rng, tier)
     w = World(task['scratch'], cfg, prop.LOG_LEVEL)
+    deadline = task.get('deadline')
+    w.deadline = deadline
     w.setup()
     prop.begin(w, rng)
     executed = []
@@ -44,6 +46,9 @@ def run_e1(task, prop):
         else:
             n = prop.nops(rng, tier)
             for step in range(n):
+                if deadline and time.time() > deadline:
+                    w.probe('run-truncated-by-wall-budget')
+                    break
                 op = prop.next_op(w, rng, step, n)
                 if op is None:
                     break
